@@ -2,8 +2,8 @@ package formatter
 
 import (
 	"fmt"
+	"regexp"
 	"strings"
-	"unicode"
 
 	"golang.org/x/net/html"
 	"golang.org/x/net/html/atom"
@@ -51,7 +51,7 @@ func (f *Formatter) Format(content string) (string, error) {
 
 	// Check if this looks like a full document (starts with <!DOCTYPE or <html)
 	trimmedBody := strings.TrimSpace(body)
-	isFullDocument := strings.HasPrefix(trimmedBody, "<!DOCTYPE") || strings.HasPrefix(trimmedBody, "<html")
+	isFullDocument := hasPrefixFold(trimmedBody, "<!DOCTYPE") || hasPrefixFold(trimmedBody, "<html")
 
 	if isFullDocument {
 		return f.formatFullDocument(frontmatter, body)
@@ -67,21 +67,18 @@ func (f *Formatter) formatFullDocument(frontmatter, body string) (string, error)
 
 	// Extract DOCTYPE if present
 	var doctype string
-	var htmlContent string
 
-	if strings.HasPrefix(trimmedBody, "<!DOCTYPE") {
-		// Find the end of DOCTYPE declaration
+	if hasPrefixFold(trimmedBody, "<!DOCTYPE") {
+		// Find the end of DOCTYPE declaration (kept byte for byte)
 		endIdx := strings.Index(trimmedBody, ">")
 		if endIdx != -1 {
 			doctype = trimmedBody[:endIdx+1]
-			htmlContent = strings.TrimSpace(trimmedBody[endIdx+1:])
 		}
-	} else {
-		htmlContent = trimmedBody
 	}
 
-	// Parse HTML
-	doc, err := html.Parse(strings.NewReader(htmlContent))
+	// Parse HTML together with its doctype: without it the parser runs in quirks mode and
+	// builds a different tree (e.g. a table nested inside an open paragraph).
+	doc, err := html.Parse(strings.NewReader(trimmedBody))
 	if err != nil {
 		return "", fmt.Errorf("parsing HTML: %w", err)
 	}
@@ -142,7 +139,7 @@ func fragmentContext(body string) *html.Node {
 			// Ensure the prefix is followed by a space, >, or end-of-string
 			// to avoid false matches (e.g., "<the" matching "<th").
 			rest := lower[len(m.prefix):]
-			if len(rest) == 0 || rest[0] == ' ' || rest[0] == '>' || rest[0] == '\n' || rest[0] == '\t' || rest[0] == '/' {
+			if len(rest) == 0 || rest[0] == ' ' || rest[0] == '>' || rest[0] == '\n' || rest[0] == '\t' || rest[0] == '\r' || rest[0] == '\f' || rest[0] == '/' {
 				return &html.Node{Type: html.ElementNode, DataAtom: m.dataAtom, Data: m.data}
 			}
 		}
@@ -239,9 +236,14 @@ func (f *Formatter) formatNode(n *html.Node, buf *strings.Builder, depth int) {
 		}
 
 		// Pre blocks - preserve content whitespace and escape entities
-		if n.Data == "pre" {
+		if n.Data == "pre" || n.Data == "textarea" {
 			buf.WriteString(indent)
 			buf.WriteString(f.renderOpenTag(n))
+			// The parser drops one newline right after the start tag: write it twice
+			// if the content itself begins with one.
+			if n.FirstChild != nil && n.FirstChild.Type == html.TextNode && strings.HasPrefix(n.FirstChild.Data, "\n") {
+				buf.WriteString("\n")
+			}
 			f.renderPreContent(n, buf)
 			buf.WriteString(f.renderCloseTag(n))
 			buf.WriteString("\n")
@@ -285,10 +287,14 @@ func (f *Formatter) formatNode(n *html.Node, buf *strings.Builder, depth int) {
 		buf.WriteString("\n")
 
 	case html.TextNode:
-		text := strings.TrimSpace(n.Data)
+		text := trimHTMLSpace(n.Data)
 		if text != "" {
 			buf.WriteString(indent)
-			buf.WriteString(escapeText(text))
+			if isRawTextElement(n.Parent) {
+				buf.WriteString(text)
+			} else {
+				buf.WriteString(escapeText(text))
+			}
 			buf.WriteString("\n")
 		}
 
@@ -436,7 +442,11 @@ func (f *Formatter) renderInlineChildren(n *html.Node) string {
 	for c := n.FirstChild; c != nil; c = c.NextSibling {
 		switch c.Type {
 		case html.TextNode:
-			b.WriteString(escapeText(normalizeInlineText(c.Data)))
+			if isRawTextElement(n) {
+				b.WriteString(normalizeInlineText(c.Data))
+			} else {
+				b.WriteString(escapeText(normalizeInlineText(c.Data)))
+			}
 		case html.CommentNode:
 			b.WriteString("<!--")
 			b.WriteString(c.Data)
@@ -449,7 +459,38 @@ func (f *Formatter) renderInlineChildren(n *html.Node) string {
 			}
 		}
 	}
-	return strings.TrimSpace(b.String())
+	return trimHTMLSpace(b.String())
+}
+
+// isRawTextElement reports whether the parser keeps the content of n as raw text (no
+// entities, no child elements), which therefore must be written back unescaped.
+func isRawTextElement(n *html.Node) bool {
+	if n == nil || n.Type != html.ElementNode {
+		return false
+	}
+	switch n.DataAtom {
+	case atom.Noscript, atom.Iframe, atom.Xmp, atom.Noembed, atom.Noframes, atom.Plaintext:
+		return true
+	}
+	return false
+}
+
+// htmlSpace is the HTML whitespace set. A no-break space (U+00A0) is content, not whitespace.
+const htmlSpace = " \t\n\r\f"
+
+// trimHTMLSpace trims HTML whitespace from both ends.
+func trimHTMLSpace(s string) string {
+	return strings.Trim(s, htmlSpace)
+}
+
+// isHTMLSpace reports whether r is HTML whitespace.
+func isHTMLSpace(r rune) bool {
+	return r == ' ' || r == '\t' || r == '\n' || r == '\r' || r == '\f'
+}
+
+// hasPrefixFold is strings.HasPrefix ignoring ASCII case.
+func hasPrefixFold(s, prefix string) bool {
+	return len(s) >= len(prefix) && strings.EqualFold(s[:len(prefix)], prefix)
 }
 
 // escapeText escapes HTML-significant characters (&, <, >) in text content.
@@ -504,7 +545,7 @@ func trimRawContent(s string) string {
 // normalizeInlineText collapses whitespace in inline text while preserving
 // boundary spaces needed between inline elements and text.
 func normalizeInlineText(s string) string {
-	trimmed := strings.TrimSpace(s)
+	trimmed := trimHTMLSpace(s)
 	if trimmed == "" {
 		// Whitespace-only text between inline elements: preserve as single space
 		if len(s) > 0 {
@@ -514,17 +555,17 @@ func normalizeInlineText(s string) string {
 	}
 
 	// Collapse internal whitespace runs to single spaces
-	fields := strings.Fields(trimmed)
+	fields := strings.FieldsFunc(trimmed, isHTMLSpace)
 	out := strings.Join(fields, " ")
 
 	// Preserve leading space if original had one (boundary between elements)
 	runes := []rune(s)
-	if len(runes) > 0 && unicode.IsSpace(runes[0]) {
+	if len(runes) > 0 && isHTMLSpace(runes[0]) {
 		out = " " + out
 	}
 
 	// Preserve trailing space if original had one
-	if len(runes) > 0 && unicode.IsSpace(runes[len(runes)-1]) {
+	if len(runes) > 0 && isHTMLSpace(runes[len(runes)-1]) {
 		out = out + " "
 	}
 
@@ -536,7 +577,7 @@ func (f *Formatter) isIgnorableWhitespace(n *html.Node) bool {
 	if n.Type != html.TextNode {
 		return false
 	}
-	return strings.TrimSpace(n.Data) == ""
+	return trimHTMLSpace(n.Data) == ""
 }
 
 // renderOpenTag renders an opening tag with attributes.
@@ -547,16 +588,51 @@ func (f *Formatter) renderOpenTag(n *html.Node) string {
 
 	for _, attr := range n.Attr {
 		buf.WriteString(" ")
+		if attr.Namespace != "" {
+			// foreign attributes such as xlink:href / xmlns:xlink
+			buf.WriteString(attr.Namespace)
+			buf.WriteString(":")
+		}
 		buf.WriteString(attr.Key)
-		if attr.Val != "" {
+		if val := helpers.FormatAttr(attr.Val); val != "" {
 			buf.WriteString("=\"")
-			buf.WriteString(helpers.FormatAttr(attr.Val))
+			buf.WriteString(escapeAttr(val))
 			buf.WriteString("\"")
 		}
 	}
 
 	buf.WriteString(">")
 	return buf.String()
+}
+
+// charRefRe matches the text that an HTML parser would try to read as a character reference.
+var charRefRe = regexp.MustCompile(`^&(#[0-9]+;?|#[xX][0-9a-fA-F]+;?|[A-Za-z][A-Za-z0-9]*;?)`)
+
+// escapeAttr makes val safe between double quotes without changing how it reads back:
+// the double quote is written as &quot;, and an ampersand is written as &amp; only where it
+// would otherwise be read as the start of a character reference (so expressions such as
+// "a && b" or "x & y" stay as they are).
+func escapeAttr(val string) string {
+	if !strings.ContainsAny(val, "\"&") {
+		return val
+	}
+	var b strings.Builder
+	b.Grow(len(val) + 8)
+	for i := 0; i < len(val); i++ {
+		switch val[i] {
+		case '"':
+			b.WriteString("&quot;")
+		case '&':
+			if m := charRefRe.FindString(val[i:]); m != "" && html.UnescapeString(m) != m {
+				b.WriteString("&amp;")
+			} else {
+				b.WriteByte('&')
+			}
+		default:
+			b.WriteByte(val[i])
+		}
+	}
+	return b.String()
 }
 
 // renderCloseTag renders a closing tag.
